@@ -7,6 +7,7 @@ use crate::backend::resources::ResourceController;
 use crate::Value;
 use crate::track::TrackPlaybackState;
 use crate::listener::ListenerId;
+use crate::command::ValueChangeCommand;
 use std::time::Duration;
 
 pub(crate) struct Env {
@@ -307,4 +308,28 @@ fn c12_2b_paused_leaf_track_is_frozen() {
     unsafe { assert!(PS_CALLS[0] == 0 && PE_CALLS[0] == 0, "C12.2b: nothing beneath a paused track is processed"); }
     kani::cover!(true);
     core::mem::forget(e); core::mem::forget(b);
+}
+
+// @ob id=C07.2d,C12.6a strength=bounded tier=quick bound="a leaf track built field by field; every combination of {pause, resume, set_volume} commands written before one callback; command arguments fixed" fn=track/sub.rs::Track::read_commands
+// @req any subset of the track's command kinds issued between the same two callbacks
+// @ens every issued command is applied in that callback and none interferes with another kind: pause then resume (both issued) leaves the track Resuming, pause alone Pausing, resume alone Resuming, neither Playing; the volume command is applied regardless; a second callback with nothing new changes nothing
+#[kani::proof]
+#[kani::unwind(4)]
+fn c07_2d_track_commands_do_not_interfere() {
+    let mut b = mk_track(1, Decibels(0.0), vec![], vec![], 0, 0, false);
+    let (do_pause, do_resume, do_volume): (bool, bool, bool) = (kani::any(), kani::any(), kani::any());
+    let tw = Tween { start_time: StartTime::Immediate, duration: Duration::from_secs(1), easing: Easing::Linear };
+    if do_pause { b.writers.pause.write(tw); }
+    if do_resume { b.writers.resume.write((StartTime::Immediate, tw)); }
+    if do_volume { b.writers.set_volume.write(ValueChangeCommand { target: Value::Fixed(Decibels(-6.0)), tween: tw }); }
+    b.track.read_commands();
+    let want = if do_resume { TrackPlaybackState::Resuming } else if do_pause { TrackPlaybackState::Pausing } else { TrackPlaybackState::Playing };
+    assert!(b.track.shared.state() == want, "C07.2d: pause and resume issued between the same two callbacks are both applied, in order, in the next callback");
+    let v = crate::parameter::kani_proofs::view(&b.track.volume);
+    assert!(matches!(v.0, crate::parameter::kani_proofs::PView::Tweening { .. }) == do_volume, "C07.2d: the volume command is applied iff it was issued");
+    b.track.read_commands();
+    assert!(b.track.shared.state() == want, "C07.2d: nothing is applied twice or late");
+    kani::cover!(do_pause && do_resume);
+    kani::cover!(!do_pause && !do_resume && do_volume);
+    core::mem::forget(b);
 }
